@@ -181,6 +181,7 @@ def main():
     ap.add_argument("--files", default="")
     ap.add_argument("--out", default="/tmp/mutscan")
     ap.add_argument("--jobs", type=int, default=6)
+    ap.add_argument("--no-tables", action="store_true", help="skip constants of class-level sensor / settings tables")
     ap.add_argument("--only", default="", help="comma separated mutant numbers of a previous run with the same --seed")
     a = ap.parse_args()
     os.makedirs(a.out, exist_ok=True)
@@ -192,6 +193,8 @@ def main():
         rel = "goodwe/" + f
         tree = ast.parse(open(os.path.join(REPO, rel)).read())
         for kind, path in sites(tree):
+            if a.no_tables and not any(f in ("body",) and isinstance(get(tree, path[:k + 1]), (ast.FunctionDef, ast.AsyncFunctionDef)) for k, (f, _) in enumerate(path)):
+                continue
             allsites.append((rel, kind, path))
     rnd = random.Random(a.seed)
     rnd.shuffle(allsites)
